@@ -39,8 +39,8 @@ def run(chk, replay):
     ]
     if chk.tier == "quick":
         plans = [((2, 2, 3), 2, 6, None), ((2, 3, 2), 2, 6, None), ((3, 2, 2), 2, 6, None),
-                 ((2, 2, 2), 3, 4, None)]
-        frac = {2: 0.35, 3: 0.5}
+                 ((2, 2, 2), 3, 4, None), ((2, 2, 2), 4, 4, 2500), ((1, 2, 3), 4, 3, 1500)]
+        frac = {2: 0.35, 3: 0.5, 4: 1.0}
     else:
         plans = [((2, 2, 3), 2, 6, None), ((2, 3, 2), 2, 6, None), ((3, 2, 2), 2, 6, None),
                  ((2, 2, 2), 3, 4, None), ((2, 2, 2), 4, 4, None),
